@@ -74,12 +74,20 @@ pub fn roundtrip(ctx: &mut Ctx, e: &Envelope, what: &str, model_bytes: Option<&[
 pub fn run(ctx: &mut Ctx) {
     bc_envelope::register_tags();
     let total = ctx.n(200_000, 400_000);
-    for case in ctx.cases(total) {
+    let sweep = special_numbers_len();
+    for case in ctx.cases(total + sweep) {
         ctx.begin_case(case);
         let mut rng = ctx.rng(case);
         let mut cfg = cfg_for(ctx, case);
         cfg.node_subject = case % 5 == 0;
-        let (m, e) = universe(&mut rng, cfg, case);
+        let (m, e) = if case >= total {
+            ctx.count("special_number_sweep");
+            let m = special_number_model((case - total) as usize);
+            let e = gen::build(&m, crate::gen::Route::Plain, &mut rng);
+            (m, e)
+        } else {
+            universe(&mut rng, cfg, case)
+        };
         let t = m.tree();
         kind_hist(ctx, &t, "");
         let mb = m.bytes();
